@@ -1,33 +1,80 @@
 (* The expressions the SOURCE of isobar uses to advance time (translated by harness/gen_tables_time.py on every run into
    Generated/TablesTime.v) are the ones Base/FloatGrid.v is about.  Proved by reflexivity: a change of the source
-   expression breaks this file, i.e. a proof obligation of C01. *)
+   expression breaks this file, i.e. a proof obligation of C01.
+   The source shape expected here is the RELATIVE tick grid (repair C01-retick-snap): Timeline.tick and Track.tick do
+     self.current_time, self._tick_grid = advance_on_tick_grid(self.current_time, <ticks_per_beat>, self._tick_grid)
+   and src_advance is the translated BODY of isobar.util.advance_on_tick_grid.  If the source goes back to the absolute
+   grid `round((t + 1/tpb) * tpb) / tpb`, the translator still succeeds (it emits src_timeline_step tpb t : R) and this
+   file stops compiling at src_advance_is / src_timeline_step_is. *)
 From Coq Require Import ZArith Reals.
-From Isobar Require Import Base.FloatGrid Generated.TablesTime.
+From Flocq Require Import Core.
+From Isobar Require Import Base.FloatGrid Base.FloatRound8 Generated.TablesTime.
 Open Scope R_scope.
 
 Lemma src_tick_duration_is tpb : src_tick_duration tpb = tick_duration tpb.
 Proof. reflexivity. Qed.
-Lemma src_timeline_step_is tpb t : src_timeline_step tpb t = grid_step tpb t.
+(* the body of isobar.util.advance_on_tick_grid *)
+Lemma src_advance_is t tpb origin g : src_advance t tpb origin g = advance t tpb origin g.
 Proof. reflexivity. Qed.
-Lemma src_track_step_is tpb t : src_track_step tpb t = grid_step tpb t.
+(* both __init__s: self._tick_grid = (0.0, None), self.current_time = 0 *)
+Lemma src_clock0_is : (0, src_tick_grid_init) = clock0.
+Proof. reflexivity. Qed.
+Lemma src_timeline_step_is tpb c : src_timeline_step tpb c = tick_step tpb c.
+Proof. reflexivity. Qed.
+Lemma src_track_step_is tpb c : src_track_step tpb c = tick_step tpb c.
 Proof. reflexivity. Qed.
 
 Lemma iter_ext {A} (f g : A -> A) (H : forall x, f x = g x) n x : Nat.iter n f x = Nat.iter n g x.
 Proof. induction n as [|n IH]; [reflexivity|]. change (f (Nat.iter n f x) = g (Nat.iter n g x)). rewrite IH. apply H. Qed.
 
-(* Timeline.current_time and Track.current_time (a track started at time 0) after n ticks *)
+(** constant resolution: Timeline.current_time and Track.current_time after n ticks from 0 (n <= 2^32) *)
 Theorem src_timeline_time_exact (tpb : Z) (n : nat) :
-  (1 <= tpb <= 2^20)%Z -> (Z.of_nat n <= 2^40)%Z ->
-  Nat.iter n (src_timeline_step tpb) 0 = RN (IZR (Z.of_nat n) / IZR tpb).
-Proof. intros. rewrite (iter_ext _ _ (src_timeline_step_is tpb)). now apply grid_run_exact. Qed.
+  (1 <= tpb <= 2^20)%Z -> (Z.of_nat n <= 2^32)%Z ->
+  fst (Nat.iter n (src_timeline_step tpb) (0, src_tick_grid_init)) = RN (IZR (Z.of_nat n) / IZR tpb).
+Proof. intros. rewrite (iter_ext _ _ (src_timeline_step_is tpb)). now apply tick_run_time. Qed.
 
 Theorem src_track_time_exact (tpb : Z) (n : nat) :
-  (1 <= tpb <= 2^20)%Z -> (Z.of_nat n <= 2^40)%Z ->
-  Nat.iter n (src_track_step tpb) 0 = RN (IZR (Z.of_nat n) / IZR tpb).
-Proof. intros. rewrite (iter_ext _ _ (src_track_step_is tpb)). now apply grid_run_exact. Qed.
+  (1 <= tpb <= 2^20)%Z -> (Z.of_nat n <= 2^32)%Z ->
+  fst (Nat.iter n (src_track_step tpb) (0, src_tick_grid_init)) = RN (IZR (Z.of_nat n) / IZR tpb).
+Proof. intros. rewrite (iter_ext _ _ (src_track_step_is tpb)). now apply tick_run_time. Qed.
+
+(* the whole state: the grid stays anchored at 0.0 *)
+Theorem src_timeline_state_exact (tpb : Z) (n : nat) :
+  (1 <= tpb <= 2^20)%Z -> (1 <= n)%nat -> (Z.of_nat n <= 2^32)%Z ->
+  Nat.iter n (src_timeline_step tpb) (0, src_tick_grid_init) = (RN (IZR (Z.of_nat n) / IZR tpb), (0, Some tpb)).
+Proof. intros. rewrite (iter_ext _ _ (src_timeline_step_is tpb)). now apply tick_run_exact. Qed.
 
 (* consequently the two clocks agree at every tick *)
 Corollary src_track_timeline_in_step (tpb : Z) (n : nat) :
-  (1 <= tpb <= 2^20)%Z -> (Z.of_nat n <= 2^40)%Z ->
-  Nat.iter n (src_track_step tpb) 0 = Nat.iter n (src_timeline_step tpb) 0.
+  (1 <= tpb <= 2^20)%Z -> (Z.of_nat n <= 2^32)%Z ->
+  fst (Nat.iter n (src_track_step tpb) (0, src_tick_grid_init)) = fst (Nat.iter n (src_timeline_step tpb) (0, src_tick_grid_init)).
 Proof. intros. rewrite src_track_time_exact, src_timeline_time_exact by assumption. reflexivity. Qed.
+
+(** change of resolution at an arbitrary time t0 (a double >= 0; the old grid (o, g), g <> tpb2): after m >= 1 ticks
+    at tpb2 the clock is RN (t0 + RN (m / tpb2)), re-anchored at t0; tpb2 * t0 + m <= 2^30 *)
+Theorem src_timeline_retick_exact (tpb2 g : Z) (t0 o : R) (m : nat) :
+  (1 <= tpb2 <= 2^20)%Z -> g <> tpb2 -> generic_format radix2 fexp64 t0 -> 0 <= t0 ->
+  (1 <= m)%nat -> IZR tpb2 * t0 + IZR (Z.of_nat m) <= 1073741824 ->
+  Nat.iter m (src_timeline_step tpb2) (t0, (o, Some g)) = (RN (t0 + RN (IZR (Z.of_nat m) / IZR tpb2)), (t0, Some tpb2)).
+Proof. intros. rewrite (iter_ext _ _ (src_timeline_step_is tpb2)). now apply retick_run_exact. Qed.
+
+Theorem src_track_retick_exact (tpb2 g : Z) (t0 o : R) (m : nat) :
+  (1 <= tpb2 <= 2^20)%Z -> g <> tpb2 -> generic_format radix2 fexp64 t0 -> 0 <= t0 ->
+  (1 <= m)%nat -> IZR tpb2 * t0 + IZR (Z.of_nat m) <= 1073741824 ->
+  Nat.iter m (src_track_step tpb2) (t0, (o, Some g)) = (RN (t0 + RN (IZR (Z.of_nat m) / IZR tpb2)), (t0, Some tpb2)).
+Proof. intros. rewrite (iter_ext _ _ (src_track_step_is tpb2)). now apply retick_run_exact. Qed.
+
+(* the timeline (at t0) and a track (at s0) re-anchored by the same change advance by the same float RN (m / tpb2) *)
+Corollary src_retick_in_step (tpb2 g g' : Z) (t0 o s0 o' : R) (m : nat) :
+  (1 <= tpb2 <= 2^20)%Z -> g <> tpb2 -> g' <> tpb2 ->
+  generic_format radix2 fexp64 t0 -> 0 <= t0 -> generic_format radix2 fexp64 s0 -> 0 <= s0 ->
+  (1 <= m)%nat -> IZR tpb2 * t0 + IZR (Z.of_nat m) <= 1073741824 -> IZR tpb2 * s0 + IZR (Z.of_nat m) <= 1073741824 ->
+  let d := RN (IZR (Z.of_nat m) / IZR tpb2) in
+  Nat.iter m (src_timeline_step tpb2) (t0, (o, Some g)) = (RN (t0 + d), (t0, Some tpb2)) /\
+  Nat.iter m (src_track_step tpb2) (s0, (o', Some g')) = (RN (s0 + d), (s0, Some tpb2)).
+Proof. intros. split; [apply src_timeline_retick_exact | apply src_track_retick_exact]; assumption. Qed.
+
+Print Assumptions src_timeline_state_exact.
+Print Assumptions src_retick_in_step.
+(* each prints exactly: ClassicalDedekindReals.sig_not_dec, ClassicalDedekindReals.sig_forall_dec,
+   FunctionalExtensionality.functional_extensionality_dep, Classical_Prop.classic (the standard library's real numbers) *)
